@@ -56,7 +56,86 @@ def _fold(t: Term, what: str) -> bool:
     from ..sym import _int_const
     if _int_const(t) is not None:
         return _int_const(t) != 0          # the truth value of an integer (a bit mask tested with ``bool(a & b)``)
-    raise Unsupported(f"{what}: formula does not reduce to a constant on a concrete valuation: {show(t)}")
+    try:
+        v = _concrete(t)
+    except _NotConcrete as e:
+        raise Unsupported(f"{what}: formula does not reduce to a constant on a concrete valuation: {show(t)} ({e})")
+    return bool(v)
+
+
+class _NotConcrete(Exception):
+    pass
+
+
+_STR_METHODS = {"split", "rsplit", "join", "upper", "lower", "strip", "lstrip", "rstrip", "startswith", "endswith", "replace", "partition", "rpartition",
+                "casefold", "title", "removeprefix", "removesuffix", "count", "find", "index", "__eq__", "__hash__", "__contains__"}
+
+
+def _concrete(t: Term):
+    """Value of a closed term over string constants (an identifier object is modelled by its name: ``X.id`` / ``X._id`` / ``X.name`` of the
+    name X is X).  Only used on formulas that look INTO the names (split / join / f-strings), where the finite table of equality patterns no
+    longer represents all inputs: a counter-example found here is a definite violation; finding none decides nothing."""
+    if not isinstance(t, tuple) or not t:
+        raise _NotConcrete(repr(t))
+    k = t[0]
+    if k == "const":
+        return t[1]
+    if k == "lin":
+        from ..sym import number
+        n = number(t)
+        if n is None:
+            raise _NotConcrete(show(t))
+        return int(n) if n.denominator == 1 else float(n)
+    if k == "attr" and t[2] in ("id", "_id", "name", "_name"):
+        v = _concrete(t[1])
+        if isinstance(v, str):
+            return v
+        raise _NotConcrete(show(t))
+    if k == "fstr":
+        return "".join(str(_concrete(x)) for x in t[1])
+    if k in ("list", "tuple", "set"):
+        vals = [_concrete(x) for x in t[1]]
+        return vals if k == "list" else tuple(vals) if k == "tuple" else set(vals)
+    if k == "and":
+        return all(_concrete(x) for x in t[1])
+    if k == "or":
+        return any(_concrete(x) for x in t[1])
+    if k == "not":
+        return not _concrete(t[1])
+    if k == "ite":
+        return _concrete(t[2]) if _concrete(t[1]) else _concrete(t[3])
+    if k == "in":
+        return _concrete(t[1]) in _concrete(t[2])
+    if k == "eq":
+        return _concrete(t[1]) == _concrete(t[2])
+    if k == "call":
+        f = t[1]
+        args = [_concrete(a) for a in t[2]]
+        if t[3]:
+            raise _NotConcrete("keyword arguments")
+        if isinstance(f, tuple) and f[0] == "attr" and f[2] in _STR_METHODS:
+            recv = _concrete(f[1])
+            if isinstance(recv, (str, list, tuple)):
+                return getattr(recv, f[2])(*args)
+        if isinstance(f, str) and f in ("str", "len", "sorted", "list", "tuple", "set", "frozenset", "hash", "min", "max", "any", "all", "bool", "int"):
+            import builtins
+            return getattr(builtins, f)(*args)
+        raise _NotConcrete(show(t))
+    if k == "binop" and len(t) == 4 and t[1] in ("+", "add"):
+        return _concrete(t[2]) + _concrete(t[3])
+    raise _NotConcrete(show(t))
+
+
+def _looks_into_names(t: Term) -> List[str]:
+    """String constants a formula uses as structure (separators of f-strings / split / join): names containing them are the interesting inputs."""
+    seps = []
+    for x in subterms(t, lambda x: x[0] == "fstr"):
+        seps += [p[1] for p in x[1] if p[0] == "const" and isinstance(p[1], str) and p[1]]
+    for x in subterms(t, lambda x: x[0] == "call" and isinstance(x[1], tuple) and x[1][0] == "attr" and x[1][2] in _STR_METHODS and not x[1][2].startswith("__")):
+        seps += [a[1] for a in x[2] if a[0] == "const" and isinstance(a[1], str) and a[1]]
+        if x[1][1][0] == "const" and isinstance(x[1][1][1], str) and x[1][1][1]:
+            seps.append(x[1][1][1])
+    return sorted(set(seps))
 
 
 def check(model: Model, rep: Report, tier: str):
@@ -154,6 +233,9 @@ def _i2(model: Model, rep: Report):
             loc, construct = f.loc, "EdgeIDObj.__eq__"
     inst = _isinstance_atoms(formula)
     names = ["A", "B", "C"]
+    seps = _looks_into_names(formula)
+    for sp in seps:
+        names += [f"A{sp}1", "1"]
     bad = None
     n = 0
     for is_inst in (True, False):
@@ -162,12 +244,16 @@ def _i2(model: Model, rep: Report):
                 mp = {("attr", S, a): ("const", s0), ("attr", S, b): ("const", s1),
                       ("attr", O, a): ("const", o0), ("attr", O, b): ("const", o1)}
                 for at in inst:
-                    mp[at] = const(is_inst)
+                    # the test against the edge interface is a free fact; the qubits themselves are identifier objects
+                    mp[at] = const(is_inst) if at[1] in (S, O) else TRUE
                 got = _fold(subst(formula, mp), "C19.I2")
                 want = is_inst and {s0, s1} == {o0, o1}
                 n += 1
                 if got != want and bad is None:
                     bad = f"isinstance={is_inst} self=({s0},{s1}) other=({o0},{o1}): code gives {got}, required {want}"
+    if seps and bad is None:
+        raise Unsupported(f"C19.I2: the formula looks into the qubit names (separators {seps}); the table of equality patterns does not represent all names and no "
+                          f"counter-example was found among {names}: {show(formula)}")
     rep.check(bad is None, "C19.I2", construct, loc, found=show(formula),
               required="isinstance(other, IEdgeID) and {self.q0, self.q1} == {other.q0, other.q1}",
               what=f"edge equality is not the unordered-pair equality: {bad}", detail="relation",
